@@ -836,7 +836,7 @@ class LegCharge:
             raise ValueError('The slices are not contiguous.\n' + str(slices))
         slices = np.append(slices[:, 0], [slices[-1, 1]])
         res = cls(chargeinfo, slices, charges, qconj)
-        res.sorted = True
+        res.sorted = res.is_sorted()  # blocks are ordered by slice, not necessarily by charge
         res.bunched = res.is_bunched()
         return res
 
